@@ -66,6 +66,42 @@ claim(
     "DESIGN.md §3 C07",
 )
 
+claim(
+    "C08",
+    "Hypothesis property-based testing against a 40-digit mpmath Van-Loan closed-form flow: single steps with |w|dt forced through every stratum, semigroup law, generated step sequences (histories), dt = 0, unit-norm drift; exp_mixed on other SO(3) parameterisations",
+    "Exploration: the generated C-bound function strapdown_ins_propagate and the group method exp_mixed are compared with the exact solution of p'=v, v'=Ra-g e3, R'=R[w]x obtained from the matrix exponential of the augmented system in extended precision (no numerical integrator), to 1e-11 relative, for dt from 1e-4 to 5 s, rates to 1e3 rad/s (|w|dt up to 150 rad) and sequences of up to 12 piecewise-constant steps.",
+    "Trusts mpmath and the Taylor scaling-and-squaring exponential in vlib/ref.py. Input quaternions are unit to round-off.",
+    "DESIGN.md §3 C08",
+)
+claim(
+    "C10",
+    "Hypothesis property-based testing: numpy reference algebra for the square-root predictor/corrector per (n, m), exact triangular/diagonal structure checks for LDL/UDU, exact rational oracle for RK4 on cubic-in-time fields, Taylor-4 oracle on linear fields, observed local order on a nonlinear field",
+    "Exploration: cyecca.util functions are built on SX symbols for n = 2..6 (2..8 thorough) and m = 1..4 and evaluated on generated W, F, Q, H, Rs (non-symmetric Rs, rank-deficient Q, zero columns in H); every stated identity is checked with numpy to a tolerance scaled by the conditioning; the factorizations for n = 1..8; RK4 exactness with fractions.Fraction.",
+    "Trusts numpy linear algebra. n = 1 is rejected by sqrt_covariance_predict itself and is outside the domain.",
+    "DESIGN.md §3 C10",
+)
+claim(
+    "C13",
+    "Hypothesis property-based testing of the piecewise-linear allocator against the forward motor geometry: range, joint feasibility => exact, moment feasibility => exact moment + least thrust shift; constructed dyadic boundary cases (headroom exactly 0 on one/both sides); saturation-cell histogram enforced",
+    "Exploration: thousands of generated (F_max, l, Cm, Ct, T, M) over several decades plus exact boundary constructions; the oracle recomputes the range-limited demand and the least-shift thrust from the stated property and compares G F with it at 1e-9 relative; every saturation cell (joint / moment-only / infeasible x sign of the two headrooms, ties) must be populated.",
+    "Trusts the sign pattern of the shipped mixer (also cross-checked against the function's own F_moment/F_thrust outputs).",
+    "DESIGN.md §3 C13",
+)
+claim(
+    "C16",
+    "Hypothesis property-based testing of model['f'], g_accel, g_gyro over generated states, commands and parameter sets against Newton-Euler balances, per-rotor wrench sums, hover/free-fall identities, world-frame equivariance (metamorphic) and the motor lag law",
+    "Exploration: 17-state/4-input/39-parameter space sampled with generated (not only default) masses, inertias, arm geometry, spin directions and coefficients; identities are checked with numpy to 1e-9..1e-10 relative to the terms of each balance.",
+    "Trusts the harness's own rigid-body equations (quaternion -> matrix, cross products) and the documented drag / aerodynamic damping terms of the model.",
+    "DESIGN.md §3 C16",
+)
+claim(
+    "C20",
+    "Model-based testing over generated histories: bus scenarios (publish/subscribe/param/logger event schedules incl. simultaneous events) executed on a fresh uros.Core and compared with a list/dict reference model; estimator node driven with generated stamp patterns through recording spies",
+    "Exploration: each generated scenario is a whole history (setup order, pre-run publishes, late subscribers, publisher processes with dyadic delays, wrong-type publishes, parameter updates, logger period changes) shrunk as one value; invariants: exactly-once synchronous in-order delivery to the subscribers of the topic only, type rejection, parameter visibility after broadcast, logger row times/contents; estimator: dt > 0 for every predict and rate-limited corrections.",
+    "simpy is single-threaded and deterministic, so the generated schedules are all the schedules that exist for this code; tie-breaking among simultaneous events is not over-specified by the model.",
+    "DESIGN.md §3 C20",
+)
+
 NOT_YET = "check not built yet in this round (work in progress; see DESIGN.md)"
 
 
